@@ -151,3 +151,40 @@ package cff
 //@     invariant isnil(code) || fresh(code)
 //@   loop 7
 //@     invariant isnil(code) || fresh(code)
+
+// encodeEncoding (CFF built-in encoding, TN 5176 section 12): checked as an
+// encoder - every count, code, SID and range length written into one or two
+// bytes must be lossless.
+//@ assume func invalidSince(reason string) (err error)
+//@   ensures err != nil
+//@   modifies nothing
+//@ func encodeEncoding(encoding []glyph.ID, glyphNames []int32) (buf []byte, err error)   props: C13
+//@   encoder
+//@   opt assume_make=1
+//@   requires len(encoding) == 256 && forall c int :: 0 <= c && c < 256 ==> encoding[c] < len(glyphNames) && encoding[c] < 65535
+//@   requires forall g int :: 0 <= g && g < len(glyphNames) ==> 0 <= glyphNames[g] && glyphNames[g] <= 65535
+//@   requires exists c int :: 0 <= c && c < 256 && encoding[c] != 0
+//@   modifies nothing
+//@   loop 0
+//@     invariant codes != nil && fresh(codes) && (isnil(extra) || fresh(extra)) && len(extra) + len(codes) <= iter && maxGid < 65535
+//@     invariant maxGid == 0 ==> forall c int :: 0 <= c && c < iter ==> encoding[c] == 0
+//@     invariant len(extra) == 0 || len(codes) >= 1
+//@     invariant forall g uint16 :: has(codes, g) ==> 1 <= g && g <= maxGid && g < len(glyphNames)
+//@     invariant forall k int :: 0 <= k && k < len(extra) ==> extra[k].gid < len(glyphNames)
+//@   loop 1
+//@     invariant codes != nil && (isnil(ss) || fresh(ss)) && 1 <= startGid && startGid <= gid && startGid <= maxGid && gid <= maxGid + 1 && maxGid < 65535 && maxGid >= 1 && len(extra) <= 255
+//@     invariant startCode == codes[startGid]
+//@     invariant gid > startGid ==> has(codes, gid - 1) && (gid - 1) - startGid == codes[gid-1] - startCode
+//@     invariant forall g uint16 :: has(codes, g) ==> 1 <= g && g <= maxGid && g < len(glyphNames)
+//@     invariant forall k int :: 0 <= k && k < len(extra) ==> extra[k].gid < len(glyphNames)
+//@     decreases maxGid + 1 - gid
+//@   loop 2
+//@     invariant 1 <= i && i <= maxGid + 1 && maxGid <= 255 && len(buf) == format0Len + extraLen && format0Len == 2 + maxGid && fresh(buf) && extraLen >= 0 && len(extra) <= 255 && extraLen == ite(len(extra) > 0, 1 + 3*len(extra), 0) && extraBase == format0Len
+//@     invariant forall k int :: 0 <= k && k < len(extra) ==> extra[k].gid < len(glyphNames)
+//@     decreases maxGid + 1 - i
+//@   loop 3
+//@     invariant len(buf) == format1Len + extraLen && format1Len == 2 + 2*len(ss) && fresh(buf) && extraLen >= 0 && len(ss) <= 255 && len(extra) <= 255 && extraLen == ite(len(extra) > 0, 1 + 3*len(extra), 0) && extraBase == format1Len
+//@     invariant forall k int :: 0 <= k && k < len(extra) ==> extra[k].gid < len(glyphNames)
+//@   loop 4
+//@     invariant len(buf) == extraBase + 1 + 3*len(extra) && fresh(buf) && extraBase >= 2 && len(extra) <= 255
+//@     invariant forall k int :: 0 <= k && k < len(extra) ==> extra[k].gid < len(glyphNames)
